@@ -563,6 +563,32 @@ func runCases(casesPath string, n int, dirv string, workersv int) []*houtcome {
 		sort.Strings(l)
 		return strings.Join(l, ";")
 	}
+	// confirm runs one input on its own with the long deadline; true when it ended by itself (outcome recorded)
+	confirmed := make([]bool, n)
+	confirm := func(i int) bool {
+		of := fmt.Sprintf("%s/confirm-%d.txt", *dir, i)
+		os.Remove(of)
+		defer os.Remove(of)
+		cmd := exec.Command(self, "hostile-worker", "-cases", casesPath, "-from", fmt.Sprint(i), "-to", fmt.Sprint(i+1), "-out", of, "-deadline", "120s", "-as", fmt.Sprint(casesASGiB))
+		err := cmd.Run()
+		b, _ := os.ReadFile(of)
+		mu.Lock()
+		defer mu.Unlock()
+		confirmed[i] = true
+		if err != nil {
+			return false
+		}
+		for _, line := range strings.Split(string(b), "\n") {
+			if strings.HasPrefix(line, "DONE ") {
+				var o houtcome
+				if json.Unmarshal([]byte(line[5:]), &o) == nil {
+					outcomes[i] = &o
+					return true
+				}
+			}
+		}
+		return false
+	}
 	per := (n + *workers - 1) / *workers
 	for k := 0; k < *workers; k++ {
 		from, to := k*per, (k+1)*per
@@ -628,10 +654,14 @@ func runCases(casesPath string, n int, dirv string, workersv int) []*houtcome {
 				if started < n {
 					mu.Lock()
 					outcomes[started] = &houtcome{I: started, Class: class, Where: where + " | " + firstMcapFrame(es)}
-					if class == "timeout" && started < len(cases) {
-						overruns[sigOf(&cases[started])]++
-					}
 					mu.Unlock()
+					// an overrun counts towards giving up on its signature only when the input overruns on its own as well, with
+					// the long deadline (an oversubscribed machine stretches the CPU time of inputs that zero gigabytes)
+					if class == "timeout" && started < len(cases) && !confirm(started) {
+						mu.Lock()
+						overruns[sigOf(&cases[started])]++
+						mu.Unlock()
+					}
 				}
 				next = started + 1
 				os.Remove(of)
@@ -650,7 +680,7 @@ func runCases(casesPath string, n int, dirv string, workersv int) []*houtcome {
 	var jobs []job
 	seen := map[string]int{}
 	for i, oc := range outcomes {
-		if oc == nil || (oc.Class != "timeout" && oc.Class != "oom" && oc.Class != "fatal" && oc.Class != "killed") {
+		if oc == nil || confirmed[i] || (oc.Class != "timeout" && oc.Class != "oom" && oc.Class != "fatal" && oc.Class != "killed") {
 			continue
 		}
 		key := oc.Class
@@ -671,24 +701,7 @@ func runCases(casesPath string, n int, dirv string, workersv int) []*houtcome {
 		go func(i int) {
 			defer wg.Done()
 			defer func() { <-sem }()
-			of := fmt.Sprintf("%s/confirm-%d.txt", *dir, i)
-			os.Remove(of)
-			cmd := exec.Command(self, "hostile-worker", "-cases", casesPath, "-from", fmt.Sprint(i), "-to", fmt.Sprint(i+1), "-out", of, "-deadline", "120s", "-as", fmt.Sprint(casesASGiB))
-			err := cmd.Run()
-			b, _ := os.ReadFile(of)
-			if err == nil {
-				for _, line := range strings.Split(string(b), "\n") {
-					if strings.HasPrefix(line, "DONE ") {
-						var o houtcome
-						if json.Unmarshal([]byte(line[5:]), &o) == nil {
-							mu.Lock()
-							outcomes[i] = &o
-							mu.Unlock()
-						}
-					}
-				}
-			}
-			os.Remove(of)
+			confirm(i)
 		}(j.i)
 	}
 	wg.Wait()
